@@ -100,7 +100,49 @@ type aggRes struct {
 func aggregate(obls []*Obligation) []aggRes {
 	m := map[string]*aggRes{}
 	var order []string
+	// smoke sites: reachable if any instance is not refuted
+	smokeAlive := map[string]bool{}
 	for _, o := range obls {
+		if o.Smoke && o.Status != "unsat" {
+			smokeAlive[o.Name] = true
+		}
+	}
+	anyReturnAlive := false
+	hasReturnSmoke := false
+	for _, o := range obls {
+		if o.Smoke && (strings.Contains(o.Name, "#smoke[return#") || strings.Contains(o.Name, "#smoke[panic")) {
+			hasReturnSmoke = true
+			if smokeAlive[o.Name] {
+				anyReturnAlive = true
+			}
+		}
+	}
+	for _, o := range obls {
+		if o.Smoke {
+			alive := smokeAlive[o.Name]
+			switch {
+			case strings.Contains(o.Name, "#smoke[return#") || strings.Contains(o.Name, "#smoke[panic"):
+				// dead returns are dead code, not vacuity, unless every exit is dead
+				alive = alive || anyReturnAlive || !hasReturnSmoke
+			case strings.Contains(o.Name, "#smoke[after "):
+				before := strings.Replace(o.Name, "#smoke[after ", "#smoke[before ", 1)
+				alive = alive || !smokeAlive[before]
+			case strings.Contains(o.Name, "#smoke[before "):
+				alive = true
+			}
+			a := m[o.Name]
+			if a == nil {
+				a = &aggRes{name: o.Name, ok: alive, status: "ok", pos: o.Pos, solver: o.Solver}
+				if !alive {
+					a.status = "VACUOUS"
+					a.bad = o
+				}
+				m[o.Name] = a
+				order = append(order, o.Name)
+			}
+			a.n++
+			continue
+		}
 		a := m[o.Name]
 		if a == nil {
 			a = &aggRes{name: o.Name, ok: true, status: "ok", pos: o.Pos}
